@@ -223,4 +223,205 @@ theorem ef_scanBackslash_escapeRune (isPrint : Nat → Bool)
       · simp [hx, hu, bslash] at hb
         omega
 
+
+/-! ## the pieces of one turn of `scanRegex` on literal text -/
+
+/-- the text starts with nothing `scanBlank` or `isTrueQuantifier` reacts to -/
+def PlainHead (l : List Nat) : Prop :=
+  ∀ c tl, l = c :: tl → isSpaceCh c = false ∧ c ≠ 35 ∧ c ≠ 40 ∧ c ≠ 123 ∧ isQuantCh c = false
+
+theorem plainHead_nil : PlainHead [] := by intro c tl h; cases h
+theorem plainHead_bslash (tl : List Nat) : PlainHead (92 :: tl) := by
+  intro c tl' h; cases h; decide
+theorem plainHead_ord (c : Nat) (tl : List Nat) (h : isStopperXCh c = false) : PlainHead (c :: tl) := by
+  intro c' tl' h'; cases h'
+  simp only [isStopperXCh, Bool.or_eq_false_iff, beq_eq_false_iff_ne] at h
+  obtain ⟨⟨h1, h2⟩, h3⟩ := h
+  simp [isSpecialCh] at h3
+  refine ⟨h1, h2, by omega, by omega, ?_⟩
+  simp [isQuantCh]; omega
+
+theorem ef_scanBlank_id (s : PS) (h : PlainHead (E.pat.drop s.pos)) : scanBlank E s = .ok () s := by
+  unfold scanBlank
+  cases hd : E.pat.drop s.pos with
+  | nil => simp [blankGo]
+  | cons c tl =>
+    obtain ⟨h1, h2, h3, _, _⟩ := h c tl hd
+    simp [blankGo, h1, h2, h3]
+
+theorem ef_isTrueQuantifier_false (s : PS) (h : PlainHead (E.pat.drop s.pos)) :
+    isTrueQuantifier E s = .ok false s := by
+  unfold isTrueQuantifier
+  cases hd : E.pat.drop s.pos with
+  | nil => rfl
+  | cons c tl =>
+    obtain ⟨_, _, _, h4, h5⟩ := h c tl hd
+    simp [isTrueQuant, h4, h5]
+
+theorem drop_add_of_append {l p tl : List Nat} {k : Nat} (h : l.drop k = p ++ tl) :
+    l.drop (k + p.length) = tl ∧ p.length + tl.length = l.length - k := by
+  constructor
+  · rw [← List.drop_drop, h]; simp
+  · have := congrArg List.length h
+    simp at this; omega
+
+theorem iter_inl {β γ : Type} (f : β → M (Sum β γ)) (n : Nat) (b b' : β) (s s' : PS)
+    (h : f b s = .ok (.inl b') s') : iter f (n + 1) b s = iter f n b' s' := by
+  simp only [iter, h]
+
+theorem iter_inr {β γ : Type} (f : β → M (Sum β γ)) (n : Nat) (b : β) (c : γ) (s s' : PS)
+    (h : f b s = .ok (.inr c) s') : iter f (n + 1) b s = .ok c s' := by
+  simp only [iter, h]
+
+/-- the run of ordinary runes: `skipOrdinary` stops at the end of the pattern or at the backslash -/
+theorem ef_skipOrdinary (p : List Nat) : ∀ (s : PS) (tl : List Nat) (n : Nat),
+    E.pat.drop s.pos = p ++ tl → (∀ c ∈ p, isStopperXCh c = false) → (tl = [] ∨ ∃ tl', tl = 92 :: tl') →
+    p.length < n → skipOrdinary E n s = .ok () { s with pos := s.pos + p.length } := by
+  induction p with
+  | nil =>
+    intro s tl n hD _ htl hn
+    obtain ⟨n, rfl⟩ : ∃ m, n = m + 1 := ⟨n - 1, by simp at hn; omega⟩
+    simp only [List.nil_append] at hD
+    unfold skipOrdinary
+    refine iter_inr _ _ _ _ _ _ ?_
+    rcases htl with rfl | ⟨tl', rfl⟩
+    · have hl : E.pat.length - s.pos = 0 := by
+        have := congrArg List.length hD; simpa using this
+      simp [bind, M.bind, charsRight, hl, pure, M.pure]
+    · obtain ⟨hlt, hc, hr⟩ := drop_cons_facts E hD
+      have hl : E.pat.length - s.pos ≠ 0 := by omega
+      have h1 : isStopperXCh 92 = true := by decide
+      have h2 : isSpecialCh 92 = true := by decide
+      simp [bind, M.bind, charsRight, hl, pure, M.pure, opts, rightChar, hc, isTrueQuantifier, hD, h1, h2]
+  | cons c p ih =>
+    intro s tl n hD hord htl hn
+    obtain ⟨n, rfl⟩ : ∃ m, n = m + 1 := ⟨n - 1, by simp at hn; omega⟩
+    simp only [List.cons_append] at hD
+    obtain ⟨hlt, hc, hr⟩ := drop_cons_facts E hD
+    have hl : E.pat.length - s.pos ≠ 0 := by omega
+    have h1 : isStopperXCh c = false := hord c (by simp)
+    have h2 : isSpecialCh c = false := by
+      simp only [isStopperXCh, Bool.or_eq_false_iff] at h1; exact h1.2
+    have := ih { s with pos := s.pos + 1 } tl n hr (fun c' hc' => hord c' (by simp [hc'])) htl
+      (by simp at hn; omega)
+    unfold skipOrdinary at this ⊢
+    refine (iter_inl _ _ _ () _ { s with pos := s.pos + 1 } ?_).trans ?_
+    · simp [bind, M.bind, charsRight, hl, pure, M.pure, opts, rightChar, hc, isTrueQuantifier, hD, h1, h2, moveRight,
+        modify]
+    · rw [this]
+      simp [Nat.add_assoc, Nat.add_comm 1]
+
+theorem ef_stepHead_end (s : PS) (hD : E.pat.drop s.pos = []) : stepHead E s = .ok (33, false) s := by
+  have hl : E.pat.length - s.pos = 0 := by have := congrArg List.length hD; simpa using this
+  unfold stepHead
+  simp [bind, M.bind, charsRight, hl, pure, M.pure]
+
+theorem ef_stepHead_bslash (s : PS) (tl : List Nat) (hD : E.pat.drop s.pos = 92 :: tl) :
+    stepHead E s = .ok (92, false) { s with pos := s.pos + 1 } := by
+  obtain ⟨hlt, hc, hr⟩ := drop_cons_facts E hD
+  have hl : E.pat.length - s.pos ≠ 0 := by omega
+  have h2 : isSpecialCh 92 = true := by decide
+  have h3 : isQuantCh 92 = false := by decide
+  unfold stepHead
+  simp [bind, M.bind, charsRight, hl, pure, M.pure, rightChar, hc, h2, h3, moveRight, modify]
+
+/-- the node `addToConcatenate` makes of a run of at least one ordinary rune (no IgnoreCase) -/
+def runNode (o : Opts) (p : List Nat) : RNode :=
+  if p.length = 1 then .mk .one o (p.headD 0) [] none 0 0 [] else .mk .multi { o with i := false } 0 p none 0 0 []
+
+/-- the concatenation after a (possibly empty) run -/
+def addRun (c : RNode) (o : Opts) (p : List Nat) : RNode := if p = [] then c else c.addChild (runNode o p)
+
+theorem ef_addToConcatenate (s : PS) (sp c : Nat) (p tl : List Nat) (hD : E.pat.drop sp = (c :: p) ++ tl)
+    (hi : s.options.i = false) :
+    addToConcatenate E sp (c :: p).length s =
+      .ok () { s with concatenation := s.concatenation.addChild (runNode s.options (c :: p)) } := by
+  obtain ⟨_, hle⟩ := drop_add_of_append hD
+  have hnle : ¬ (sp + (p.length + 1) > E.pat.length) := by simp at hle; omega
+  have htake : (E.pat.drop sp).take (p.length + 1) = c :: p := by rw [hD]; simp
+  unfold addToConcatenate
+  simp only [List.length_cons, Nat.add_one_ne_zero, if_false, hnle, htake, hi]
+  cases p with
+  | nil => simp [nodeCh, hi, runNode]
+  | cons d p => simp [runNode]
+
+theorem ef_stepLiteral (s : PS) (sp : Nat) (p tl : List Nat) (b : Bool) (hD : E.pat.drop sp = p ++ tl)
+    (hi : s.options.i = false) :
+    stepLiteral E sp (sp + p.length) false b s =
+      .ok (if p = [] then b else false) { s with concatenation := addRun s.concatenation s.options p } := by
+  unfold stepLiteral
+  cases p with
+  | nil => simp [pure, M.pure, addRun]
+  | cons c p =>
+    have hlt : sp < sp + (c :: p).length := by simp
+    have h := ef_addToConcatenate E s sp c p tl hD hi
+    have hpos : (c :: p).length > 0 := by simp
+    simp only [hlt, if_true, Bool.false_eq_true, if_false, Nat.sub_zero, Nat.add_sub_cancel_left, hpos]
+    simp only [List.length_cons] at h
+    simp [bind, M.bind, h, pure, M.pure, addRun]
+
+/-- after a unit that is followed by plain text: no blank, no quantifier, the unit joins the
+    concatenation -/
+theorem ef_stepAfter (s : PS) (u : RNode) (hu : s.unit = some u) (h : PlainHead (E.pat.drop s.pos)) :
+    stepAfter E false s = .ok (.inl false) { s with concatenation := s.concatenation.addChild u, unit := none } := by
+  unfold stepAfter
+  simp only [bind, M.bind, ef_scanBlank_id E s h, charsRight]
+  by_cases hl : E.pat.length - s.pos > 0
+  · simp [hl, ef_isTrueQuantifier_false E s h, addConcatenate, hu, pure, M.pure, bind, M.bind]
+  · simp [hl, addConcatenate, hu, pure, M.pure, bind, M.bind]
+
+
+theorem plainHead_ords (p tl : List Nat) (hord : ∀ c ∈ p, isStopperXCh c = false) (htl : PlainHead tl) :
+    PlainHead (p ++ tl) := by
+  cases p with
+  | nil => simpa using htl
+  | cons c p => exact plainHead_ord c _ (hord c (by simp))
+
+/-- **a turn of `scanRegex` on a run of ordinary runes that ends the pattern**: the run joins the
+    concatenation as one One/Multi node, `BreakOuterScan` -/
+theorem ef_scanStep_end (s : PS) (p : List Nat) (b : Bool) (hD : E.pat.drop s.pos = p)
+    (hord : ∀ c ∈ p, isStopperXCh c = false) (hi : s.options.i = false) :
+    scanStep E b s = .ok (.inr ())
+      { s with pos := s.pos + p.length, concatenation := addRun s.concatenation s.options p } := by
+  have hD' : E.pat.drop s.pos = p ++ [] := by simpa using hD
+  obtain ⟨hd1, hlen⟩ := drop_add_of_append hD'
+  have e1 := ef_scanBlank_id E s (by rw [hD']; exact plainHead_ords p [] hord plainHead_nil)
+  have e2 := ef_skipOrdinary E p s [] (E.pat.length - s.pos + 1) hD' hord (Or.inl rfl) (by simp at hlen; omega)
+  have e3 := ef_scanBlank_id E { s with pos := s.pos + p.length } (by rw [hd1]; exact plainHead_nil)
+  have e4 := ef_stepHead_end E { s with pos := s.pos + p.length } hd1
+  have e5 := ef_stepLiteral E { s with pos := s.pos + p.length } s.pos p [] b hD' hi
+  unfold scanStep stepRun
+  simp [bind, M.bind, textpos, charsRight, opts, pure, M.pure, e1, e2, e3, e4, e5]
+
+/-- **a turn of `scanRegex` on a run of ordinary runes followed by one escaped rune**: the run joins the
+    concatenation as one One/Multi node, the escape as a One node; the loop goes on -/
+theorem ef_scanStep_esc (isPrint : Nat → Bool)
+    (hW : ∀ c, Generated.metaChars.contains c = true → E.orc.isWord c = false)
+    (s : PS) (p : List Nat) (r : Nat) (body tl : List Nat) (b : Bool)
+    (hb : escapeRune isPrint r = 92 :: body) (hD : E.pat.drop s.pos = p ++ (92 :: (body ++ tl)))
+    (hord : ∀ c ∈ p, isStopperXCh c = false) (htl : PlainHead tl) (hi : s.options.i = false) :
+    scanStep E b s = .ok (.inl false)
+      { s with pos := s.pos + p.length + 1 + body.length,
+               concatenation := (addRun s.concatenation s.options p).addChild (.mk .one s.options r [] none 0 0 []),
+               unit := none } := by
+  obtain ⟨hd1, hlen⟩ := drop_add_of_append hD
+  obtain ⟨_, _, hd2⟩ := drop_cons_facts E hd1
+  obtain ⟨hd3, _⟩ := drop_add_of_append hd2
+  have e1 := ef_scanBlank_id E s (by rw [hD]; exact plainHead_ords p _ hord (plainHead_bslash _))
+  have e2 := ef_skipOrdinary E p s _ (E.pat.length - s.pos + 1) hD hord (Or.inr ⟨_, rfl⟩)
+    (by simp at hlen; omega)
+  have e3 := ef_scanBlank_id E { s with pos := s.pos + p.length } (by rw [hd1]; exact plainHead_bslash _)
+  have e4 := ef_stepHead_bslash E { s with pos := s.pos + p.length } _ hd1
+  have e5 := ef_stepLiteral E { s with pos := s.pos + p.length + 1 } s.pos p _ b hD hi
+  have e6 := ef_scanBackslash_escapeRune E isPrint hW r body tl hb false
+    { s with pos := s.pos + p.length + 1, concatenation := addRun s.concatenation s.options p } hd2 hi
+  have e7 := ef_stepAfter E
+    { s with pos := s.pos + p.length + 1 + body.length, concatenation := addRun s.concatenation s.options p,
+             unit := some (.mk .one s.options r [] none 0 0 []) } _ rfl (by rw [hd3]; exact htl)
+  unfold scanStep stepRun
+  simp [bind, M.bind, textpos, charsRight, opts, pure, M.pure, e1, e2, e3, e4, e5]
+  unfold stepSwitch
+  simp [bind, M.bind, pure, M.pure] at e6 ⊢
+  simp [e6, setUnit, modify, e7]
+
 end RegexVerif.Parser
